@@ -86,6 +86,14 @@ func genUserMethods(r *RNG) *uCase {
 				p.DefClass = Pick(r, scal)
 			}
 			m.params = append(m.params, p)
+			if r.Bool() {
+				// a second keyword whose name extends the first one's
+				p2 := uParam{Name: "kw2", Kind: Pick(r, []string{"kw", "kwreq"})}
+				if p2.Kind == "kw" {
+					p2.DefClass = Pick(r, scal)
+				}
+				m.params = append(m.params, p2)
+			}
 		}
 		feats[m.kind] = true
 		ms = append(ms, m)
@@ -111,6 +119,20 @@ func genUserMethods(r *RNG) *uCase {
 				if pi == 0 && through {
 					// the argument is a parameter of the calling method, which is itself
 					// called with two different classes
+					if r.Chance(1, 3) {
+						// an expression on the caller's own parameter: its class is only
+						// known once the caller's call sites are
+						if r.Bool() {
+							p.Want = append(p.Want, "String")
+							thru = []string{nLit(Pick(r, scal)), nLit(Pick(r, scal))}
+							args = append(args, "v.to_s")
+						} else {
+							p.Want = append(p.Want, "Integer")
+							thru = []string{"1", "41"}
+							args = append(args, "v + 1")
+						}
+						continue
+					}
 					c1, c2 := Pick(r, scal), Pick(r, scal)
 					p.Want = append(p.Want, c1, c2)
 					thru = []string{nLit(c1), nLit(c2)}
@@ -150,6 +172,10 @@ func genUserMethods(r *RNG) *uCase {
 					text = p.Name + ": " + text
 				}
 				args = append(args, text)
+			}
+			// callers may write keywords in any order
+			if n := len(args); n >= 2 && strings.HasPrefix(args[n-1], "kw2: ") && strings.HasPrefix(args[n-2], "kw: ") && r.Bool() {
+				args[n-1], args[n-2] = args[n-2], args[n-1]
 			}
 			where := "after"
 			switch {
